@@ -138,9 +138,10 @@ type AuthOpts struct {
 	RootDomains    []string // proxy root domains
 	Lifetime       time.Duration
 	Slug           string
-	NoProxyClient  bool   // CLIENT_PROXY_ID / CLIENT_PROXY_SECRET are left unset (a misconfigured deployment)
-	ProxySecret    string // CLIENT_PROXY_SECRET when it is not the usual one
-	ProviderType   string // okta (default) | cognito
+	NoProxyClient  bool          // CLIENT_PROXY_ID / CLIENT_PROXY_SECRET are left unset (a misconfigured deployment)
+	ProxySecret    string        // CLIENT_PROXY_SECRET when it is not the usual one
+	GroupCacheTTL  time.Duration // PROVIDER_<slug>_GROUPCACHE_INTERVAL_PROVIDER (the provider-level default is 0: entries never expire)
+	ProviderType   string        // okta (default) | cognito
 }
 
 type AuthEnv struct {
@@ -218,6 +219,9 @@ func NewAuthEnv(o AuthOpts) (*AuthEnv, error) {
 		"PROVIDER_" + up + "_CLIENT_ID":     "idp-client-id",
 		"PROVIDER_" + up + "_CLIENT_SECRET": "idp-client-secret",
 		"PROVIDER_" + up + "_OKTA_URL":      e.IdP.Addr(),
+	}
+	if o.GroupCacheTTL != 0 {
+		env["PROVIDER_"+up+"_GROUPCACHE_INTERVAL_PROVIDER"] = o.GroupCacheTTL.String()
 	}
 	if !o.NoProxyClient {
 		env["CLIENT_PROXY_ID"], env["CLIENT_PROXY_SECRET"] = ClientID, ClientSecret
